@@ -65,7 +65,8 @@ def run_requester(script, qmax, frag):
                 d = sim.parse_sent(b)
                 if d['t'] in REQ_TYPES:
                     wire.append(d['sid'])
-            queue = [f.stream_id for f in list(c._request_queue._queue)]
+            q = c._request_queue          # whatever container holds the requests waiting for a lease
+            queue = [f.stream_id for f in list(getattr(q, '_queue', q))]
             segments.append({'t0': seg_t0, 'evs': list(evs), 'sent': wire, 'queue': queue, 'refused': list(refused)})
         seg_t0 = t0
         for step in script:
